@@ -12,6 +12,12 @@ use std::time::Instant;
 
 pub const VERIF_DIR: &str = "/verif";
 
+/// where evidence and replay files go: /verif, or $VERIF_OUT (used when checks are run against mutated trees so
+/// that committed evidence is not overwritten)
+pub fn out_dir() -> String {
+    std::env::var("VERIF_OUT").unwrap_or_else(|_| VERIF_DIR.to_string())
+}
+
 #[derive(Clone, Copy, Debug, PartialEq, Eq)]
 pub enum Tier {
     Quick,
@@ -436,7 +442,7 @@ impl Report {
             "wall_s": wall,
             "violations": violations.len(),
         });
-        let dir = format!("{}/evidence", VERIF_DIR);
+        let dir = format!("{}/evidence", out_dir());
         let _ = std::fs::create_dir_all(&dir);
         let path = format!("{}/{}.json", dir, self.id);
         if let Err(e) = std::fs::write(&path, serde_json::to_string_pretty(&ev).unwrap()) {
@@ -451,7 +457,7 @@ impl Report {
             let body = json!({"property": self.id, "kind": f.kind, "message": f.message, "case": f.case, "seed": self.seed, "tier": self.tier.name()});
             let text = serde_json::to_string_pretty(&body).unwrap();
             let h = hash_str(&text);
-            let rdir = format!("{}/replays", VERIF_DIR);
+            let rdir = format!("{}/replays", out_dir());
             let _ = std::fs::create_dir_all(&rdir);
             let rpath = format!("{}/{}-{:016x}.json", rdir, self.id, h);
             let _ = std::fs::write(&rpath, text);
